@@ -211,6 +211,32 @@ def r5(R, repo):
   R.require(len(rets) >= 1, 'grad_wrapper: return statements not found')
   _once(R, repo, c, gw, ev, rets, key_of(gw, 'process_out exactly once before every return'),
         'grad_wrapper must call process_out (the outer from_tree that copies the updated state back onto the caller\'s objects) exactly once on each of its return paths', 'process_out')
+  # everything the transformed function returned must be consumed: the gradients by process_grads, the updated
+  # argument state (and aux) by process_out, the loss by the return — a part unpacked from fn_out and never read is dropped
+  unpack = [n for n in astu.body_walk(gw.node) if isinstance(n, ast.Assign) and isinstance(n.value, ast.Name) and n.value.id == 'fn_out' and isinstance(n.targets[0], ast.Tuple)]
+  loads = {}
+  for n in astu.body_walk(gw.node):
+    if isinstance(n, ast.Name) and isinstance(n.ctx, ast.Load):
+      loads.setdefault(n.id, []).append(n)
+  for u in unpack:
+    names = [x.id for x in ast.walk(u.targets[0]) if isinstance(x, ast.Name)]
+    for nm in names:
+      if nm.startswith('_'):
+        continue
+      key = key_of(gw, 'every part of fn_out is consumed') + ' :: %s @%s' % (nm, astu.short(u.targets[0], 40))
+      un = c.nodes_for(u)
+      after = c.reach(un) if un else set()
+      here = []
+      for nd in after:
+        part = nd.ast if nd.kind in ('if', 'while', 'for') and getattr(nd, 'ast', None) is not None else nd.stmt
+        if part is None:
+          continue
+        here += [y for y in ast.walk(part) if isinstance(y, ast.Name) and y.id == nm and isinstance(y.ctx, ast.Load)]
+      if here:
+        R.ok(key, (gw, u))
+      else:
+        R.fail(key, (gw, u), '`%s` is unpacked from the transformed function\'s result (`%s`) and never used on this branch: %s' % (
+            nm, astu.short(u), 'the state the forward pass wrote into the arguments (counters, batch statistics, rng counts) is not copied back to the caller\'s objects' if 'args' in nm else 'that part of the result is dropped'))
   po = ad.func('_grad_general.grad_wrapper.process_out')
   R.check("return extract.from_tree(pure_out, ctxtag='grad', is_inner=False)" in astu.src(po.node), key_of(po, 'outer merge with the grad tag'), po, "process_out must be the outer from_tree(..., ctxtag='grad', is_inner=False)")
 
@@ -236,6 +262,11 @@ def r6(R, repo):
   R.check('arg is not out' in astu.src(cr.node) and any(isinstance(n, ast.Raise) for n in ast.walk(cr.node)), key_of(cr, 'identity comparison raises'), cr, 'carry references must be compared by identity and a difference must raise')
   co = it.func('_check_out_axes')
   R.check(len([n for n in ast.walk(co.node) if isinstance(n, ast.Raise)]) == 3, key_of(co, 'None / StateAxes None / StateAxes Carry outputs rejected'), co, '_check_out_axes must reject None, StateAxes None and StateAxes Carry in out_axes')
+
+
+@rule('C08.R9', 'K1', 2, 'one object passed under two different axis / differentiation specifications is rejected (shared with C04.R10)')
+def r9(R, repo):
+  _c04.check_aliasing_body(R, repo)
 
 
 @rule('C08.R7', 'K1+K4', 40, 'vmap / pmap / scan / grad follow the tagged split -> call -> merge protocol (shared with C04.R1)')
